@@ -237,3 +237,14 @@ var CSSValueShape = func() map[string]string {
 // HTML §13.2.3.5 (preprocessing the input stream): U+000D is normalised to U+000A when it stands literally in the document; the
 // character references &#13; / &#xD; give U+000D. A decoder that writes the byte changes the text.
 var HTMLLiteralReadDifferently = []byte{'\r'}
+
+// CSS Values and Units 4 §6–§7: the units of the dimensions with fixed ratios, as the factor that converts a value in the unit into
+// the canonical unit of its dimension (deg, s, hz, dppx, px).
+var CSSCanonicalUnit = map[string]string{"angle": "deg", "time": "s", "frequency": "hz", "resolution": "dppx", "length": "px"}
+var CSSUnitFactor = map[string]map[string]float64{
+	"angle":      {"deg": 1, "grad": 0.9, "rad": 180 / 3.141592653589793, "turn": 360},
+	"time":       {"s": 1, "ms": 0.001},
+	"frequency":  {"hz": 1, "khz": 1000},
+	"resolution": {"dppx": 1, "dpi": 1.0 / 96, "dpcm": 2.54 / 96},
+	"length":     {"px": 1, "in": 96, "cm": 96 / 2.54, "mm": 96 / 25.4, "q": 96 / 101.6, "pt": 96.0 / 72, "pc": 16},
+}
